@@ -15,6 +15,18 @@ pub fn futex_wait(
     flags: FutexFlags,
     timeout: Option<TimeSpec>,
 ) -> Result<(), Error> {
+    #[cfg(feature = "verif-hooks")]
+    if let Some(res) = crate::verif::futex_wait_pre(
+        uaddr,
+        val,
+        FUTEX_WAIT & flags.bits().0,
+        timeout
+            .as_ref()
+            .map_or_else(core::ptr::null, core::ptr::from_ref::<TimeSpec>),
+    ) {
+        bail_on_below_zero!(res, "`FUTEX` (wait) syscall failed");
+        return Ok(());
+    }
     let res = unsafe {
         syscall!(
             FUTEX,
@@ -28,6 +40,8 @@ pub fn futex_wait(
             0
         )
     };
+    #[cfg(feature = "verif-hooks")]
+    crate::verif::futex_wait_post(uaddr, val, res);
     bail_on_below_zero!(res, "`FUTEX` (wait) syscall failed");
     Ok(())
 }
@@ -38,6 +52,11 @@ pub fn futex_wait(
 /// See above documentation
 #[inline]
 pub fn futex_wake(uaddr: &AtomicU32, num_waiters: i32) -> Result<usize, Error> {
+    #[cfg(feature = "verif-hooks")]
+    if let Some(res) = crate::verif::futex_wake_pre(uaddr, num_waiters, FUTEX_WAKE) {
+        bail_on_below_zero!(res, "`FUTEX` (wake) syscall failed");
+        return Ok(res);
+    }
     let res = unsafe {
         syscall!(
             FUTEX,
@@ -49,6 +68,8 @@ pub fn futex_wake(uaddr: &AtomicU32, num_waiters: i32) -> Result<usize, Error> {
             0
         )
     };
+    #[cfg(feature = "verif-hooks")]
+    crate::verif::futex_wake_post(uaddr, num_waiters, res);
     bail_on_below_zero!(res, "`FUTEX` (wake) syscall failed");
     Ok(res)
 }
